@@ -116,6 +116,7 @@ class Evaluator:
         self._ovr: dict = {}
         self.opaque_funcs: set[str] = set()
         self.opaque_methods: set[str] = set()
+        self._stack: list[int] = []
 
     # ------------------------------------------------------------------ entry points
     def eval_method(self, cls_name: str, meth: str, module_suffix: str | None = None, bind: dict | None = None):
@@ -509,6 +510,10 @@ class _Ctx:
 
     def for_(self, st, env, conds):
         it = self.expr(st.iter, env)
+        if is_t(it, "call") and it[1] == G("zip"):
+            it = ("zip", it[2])
+        elif is_t(it, "call") and it[1] == G("enumerate") and len(it[2]) >= 1:
+            it = ("enumerate", it[2][0])
         body_env = dict(env)
         self.assign(st.target, mk_elem(it), body_env)
         e1 = self.block(st.body, body_env, conds + ((("iter", it), True),))
@@ -827,6 +832,17 @@ class _Ctx:
             ev.notes.append(f"inlining depth bound reached at {clo.name}")
             return None
         node = clo.node
+        if id(node) in ev._stack:
+            return None  # recursion: keep the call opaque
+        ev._stack.append(id(node))
+        try:
+            return self._inline(clo, args, kwargs)
+        finally:
+            ev._stack.pop()
+
+    def _inline(self, clo: Closure, args, kwargs):
+        ev = self.ev
+        node = clo.node
         a = node.args
         env = dict(clo.env)
         params = [x.arg for x in a.posonlyargs + a.args]
@@ -878,6 +894,9 @@ class _Ctx:
                     cur[k] = v
             if res.env.get("__effects__"):
                 cur["__effects__"] = cur.get("__effects__", []) + [e for e in res.env["__effects__"] if e not in cur.get("__effects__", [])]
+        elif cur is not None and isinstance(node, (ast.FunctionDef, ast.Lambda)) and clo.env and res.env.get("__effects__"):
+            # a local function shares the caller's mutable objects: keep its effect calls visible
+            cur["__effects__"] = cur.get("__effects__", []) + [e for e in res.env["__effects__"] if e not in cur.get("__effects__", [])]
         # propagate raise / assert facts upward (rules sometimes need them)
         if hasattr(self, "res"):
             self.res.asserts.extend(res.asserts)
